@@ -66,6 +66,9 @@ pub struct Rec<C, const NATIVE: bool> {
     /// kind and area of the call that was made to fail
     pub fault_call: Option<(&'static str, Option<(i32, i32, u32, u32)>)>,
     pub drain: bool,
+    /// native fill_contiguous clips to the reported box and skips the invisible colours with `nth` (what a driver
+    /// that streams only the visible window does); pixels outside the box are dropped by every call
+    pub skip: bool,
     /// (area size, colours pulled) per fill_contiguous call when draining
     pub drained: Vec<(u64, u64)>,
 }
@@ -89,6 +92,7 @@ impl<C: PixelColor, const N: bool> Rec<C, N> {
             faulted: false,
             fault_call: None,
             drain: false,
+            skip: false,
             drained: vec![],
         }
     }
@@ -98,6 +102,10 @@ impl<C: PixelColor, const N: bool> Rec<C, N> {
     }
     pub fn draining(mut self) -> Self {
         self.drain = true;
+        self
+    }
+    pub fn skipping(mut self) -> Self {
+        self.skip = true;
         self
     }
     pub fn failing_at(mut self, k: usize) -> Self {
@@ -174,6 +182,33 @@ impl<C: PixelColor> DrawTarget for Rec<C, true> {
         let mut it = colors.into_iter();
         let mut got: Vec<C> = vec![];
         let mut n = 0u64;
+        if self.skip {
+            // visible part of the area; stream index of (x, y) is (y - area.y) * area.w + (x - area.x)
+            let vis = area.intersection(&self.bbox);
+            let aw = area.size.width as u64;
+            let mut cursor = 0u64;
+            'rows: for y in vis.rows() {
+                let start = (y - area.top_left.y) as u64 * aw + (vis.top_left.x - area.top_left.x) as u64;
+                for (i, x) in vis.columns().enumerate() {
+                    // one `nth` jumps over everything invisible since the last visible pixel
+                    let c = if i == 0 { it.nth((start - cursor) as usize) } else { it.next() };
+                    match c {
+                        Some(c) => {
+                            self.map.insert((x, y), c);
+                            if self.log_calls {
+                                got.push(c);
+                            }
+                        }
+                        None => break 'rows,
+                    }
+                }
+                cursor = start + vis.size.width as u64;
+            }
+            if self.log_calls {
+                self.log.push(Call::FillContiguous { area: rt(area), colors: got });
+            }
+            return Ok(());
+        }
         for p in area.points() {
             match it.next() {
                 Some(c) => {
